@@ -15,6 +15,7 @@ import AY.Driver.OpsBunch
 import AY.Driver.OpsImportName
 import AY.Driver.OpsErrWrap
 import AY.Driver.OpsSources
+import AY.Driver.OpsFromPy
 open Lean AY AY.Codec
 
 def parseDocs (j : Json) : Except String (List (Env × Raw)) :=
@@ -118,6 +119,7 @@ def dispatch (j : Json) : Json :=
   | .ok (.str "importName") => AY.OpsImportName.opImportName j
   | .ok (.str "errwrap") => AY.OpsErrWrap.opErrWrap j
   | .ok (.str "sources") => AY.OpsSources.opSources j
+  | .ok (.str "fromPy") => AY.OpsFromPy.opFromPy j
   | _ => Json.mkObj [("bad", .str "unknown op")]
 
 partial def loop (h : IO.FS.Stream) (out : IO.FS.Stream) : IO Unit := do
